@@ -20,6 +20,7 @@ Record world := {
   oracle : list (list nat);              (* which running workers finish during each wait(), in order *)
   ticks : nat;
   terminated : list nat;
+  nstarts : nat;                         (* ghost: worker processes started so far (queued -> running transitions) *)
 }.
 
 Definition M (A : Type) := world -> (A + exn) * world.
@@ -36,22 +37,22 @@ Definition try_catch {A} (m : M A) (h : exn -> M A) : M A :=
 
 Definition set_ws (w : world) (s : st) : world :=
   {| ws := s; f2t := f2t w; maxw_ := maxw_ w; budget := budget w; second := second w;
-     fired := fired w; oracle := oracle w; ticks := ticks w; terminated := terminated w |}.
+     fired := fired w; oracle := oracle w; ticks := ticks w; terminated := terminated w; nstarts := nstarts w |}.
 Definition set_f2t (w : world) (l : list (nat * fstat * bool)) : world :=
   {| ws := ws w; f2t := l; maxw_ := maxw_ w; budget := budget w; second := second w;
-     fired := fired w; oracle := oracle w; ticks := ticks w; terminated := terminated w |}.
+     fired := fired w; oracle := oracle w; ticks := ticks w; terminated := terminated w; nstarts := nstarts w |}.
 
 (* a point at which Ctrl-C may land *)
 Definition tick : M unit := fun w =>
   let w1 := {| ws := ws w; f2t := f2t w; maxw_ := maxw_ w; budget := budget w; second := second w;
-               fired := fired w; oracle := oracle w; ticks := S (ticks w); terminated := terminated w |} in
+               fired := fired w; oracle := oracle w; ticks := S (ticks w); terminated := terminated w; nstarts := nstarts w |} in
   match budget w with
   | Some 0 =>
     (inr KI, {| ws := ws w1; f2t := f2t w1; maxw_ := maxw_ w1; budget := second w1; second := None;
-                fired := S (fired w1); oracle := oracle w1; ticks := ticks w1; terminated := terminated w1 |})
+                fired := S (fired w1); oracle := oracle w1; ticks := ticks w1; terminated := terminated w1; nstarts := nstarts w1 |})
   | Some (S k) =>
     (inl tt, {| ws := ws w1; f2t := f2t w1; maxw_ := maxw_ w1; budget := Some k; second := second w1;
-                fired := fired w1; oracle := oracle w1; ticks := ticks w1; terminated := terminated w1 |})
+                fired := fired w1; oracle := oracle w1; ticks := ticks w1; terminated := terminated w1; nstarts := nstarts w1 |})
   | None => (inl tt, w1)
   end.
 
@@ -73,7 +74,10 @@ Fixpoint start_more (free : nat) (l : list (nat * fstat * bool)) : list (nat * f
   | (t, FQueued, r) :: l' => match free with 0 => (t, FQueued, r) :: l' | S k => (t, FRunning, r) :: start_more k l' end
   | x :: l' => x :: start_more free l'
   end.
-Definition restart (w : world) : world := set_f2t w (start_more (maxw_ w - count_running (f2t w)) (f2t w)).
+Definition restart (w : world) : world :=
+  let l' := start_more (maxw_ w - count_running (f2t w)) (f2t w) in
+  {| ws := ws w; f2t := l'; maxw_ := maxw_ w; budget := budget w; second := second w; fired := fired w; oracle := oracle w;
+     ticks := ticks w; terminated := terminated w; nstarts := nstarts w + (count_running l' - count_running (f2t w)) |}.
 
 
 Record iparams := {
@@ -149,7 +153,7 @@ Section Prog.
     | [] => (inl None, w)
     | b :: o' => (inl (Some b), {| ws := ws w; f2t := f2t w; maxw_ := maxw_ w; budget := budget w;
                                    second := second w; fired := fired w; oracle := o'; ticks := ticks w;
-                                   terminated := terminated w |})
+                                   terminated := terminated w; nstarts := nstarts w |})
     end.
 
   (* runner.wait as a generator driven by the for loop of process_completed_tasks *)
@@ -192,7 +196,8 @@ Section Prog.
                         f2t := map (fun p => match stat_of p with FRunning => (tid_of p, FCancelled, registered p) | _ => p end) (f2t w);
                         maxw_ := maxw_ w; budget := budget w; second := second w; fired := fired w;
                         oracle := oracle w; ticks := ticks w;
-                        terminated := terminated w ++ map tid_of (filter (fun p => match stat_of p with FRunning => true | _ => false end) (f2t w)) |}).
+                        terminated := terminated w ++ map tid_of (filter (fun p => match stat_of p with FRunning => true | _ => false end) (f2t w));
+                        nstarts := nstarts w |}).
 
   Inductive ioutcome := IReturned (r : list (nat * val)) | IRaised (e : exn) | IOutOfOracle.
 
@@ -231,6 +236,28 @@ Section Prog.
     | _ => IRaised KeyErr
     end.
 
+  (* the except KeyboardInterrupt branch: cancel queued tasks, drain; on a second interrupt cancel again, stop, collect *)
+  Definition on_interrupt (fuel : nat) : M ioutcome :=
+    try_catch
+      (do_cancel ;;;
+       ok <- drain_loop fuel ;;
+       ret (if ok then IRaised KI else IOutOfOracle))
+      (fun e2 =>
+         match e2 with
+         | KI =>
+           try_catch ((if ip_stop_cancels P then do_cancel else ret tt) ;;;
+                      do_stop ;;;
+                      try_catch wait_and_process
+                                (fun e3 => match e3 with
+                                           | LabErr _ => if ip_stop_swallows P then ret tt else raise e3
+                                           | _ => raise e3
+                                           end) ;;;
+                      ret (IRaised KI))
+                     (fun e3 => ret (match e3 with Exhausted => IOutOfOracle | _ => IRaised e3 end))
+         | Exhausted => ret IOutOfOracle
+         | _ => ret (IRaised e2)
+         end).
+
   (* TaskCoordinator.run's try / except KeyboardInterrupt / else, without the finally (runner.close etc.) *)
   Definition irun (fuel : nat) : M ioutcome :=
     try_catch
@@ -239,26 +266,7 @@ Section Prog.
        ret (if ok then final_of w else IOutOfOracle))
       (fun e =>
          match e with
-         | KI =>
-           try_catch
-             (do_cancel ;;;
-              ok <- drain_loop fuel ;;
-              ret (if ok then IRaised KI else IOutOfOracle))
-             (fun e2 =>
-                match e2 with
-                | KI =>
-                  try_catch ((if ip_stop_cancels P then do_cancel else ret tt) ;;;
-                             do_stop ;;;
-                             try_catch wait_and_process
-                                       (fun e3 => match e3 with
-                                                  | LabErr _ => if ip_stop_swallows P then ret tt else raise e3
-                                                  | _ => raise e3
-                                                  end) ;;;
-                             ret (IRaised KI))
-                            (fun e3 => ret (match e3 with Exhausted => IOutOfOracle | _ => IRaised e3 end))
-                | Exhausted => ret IOutOfOracle
-                | _ => ret (IRaised e2)
-                end)
+         | KI => on_interrupt fuel
          | Exhausted => ret IOutOfOracle
          | _ => ret (IRaised e)
          end).
@@ -266,7 +274,7 @@ End Prog.
 
 Definition init_world (c : cfg) (maxw : nat) (o : list (list nat)) (k1 : option nat) (k2 : option nat) : world :=
   {| ws := init c; f2t := []; maxw_ := maxw; budget := k1; second := k2; fired := 0; oracle := o;
-     ticks := 0; terminated := [] |}.
+     ticks := 0; terminated := []; nstarts := 0 |}.
 
 Definition run_intr (P : iparams) (c : cfg) (maxw : nat) (o : list (list nat)) (k1 k2 : option nat) : ioutcome * world :=
   match irun P c (S (S (List.length o))) (init_world c maxw o k1 k2) with
@@ -280,6 +288,7 @@ Record icase := {
   ic_outcome : ioutcome;            (* observed *)
   ic_trace : list event;            (* observed, oldest first *)
   ic_terminated : list nat;         (* observed: workers terminated by stop(), sorted *)
+  ic_nstarts : nat;                 (* observed: worker processes started during the whole run *)
 }.
 Definition exn_eqb (a b : exn) : bool :=
   match a, b with KI, KI | KeyErr, KeyErr | Exhausted, Exhausted => true | LabErr t, LabErr u => Nat.eqb t u | _, _ => false end.
@@ -293,4 +302,5 @@ Definition check_icase (P : iparams) (k : icase) : bool :=
   let '(out, w) := run_intr P (ic_cfg k) (ic_maxw k) (ic_oracle k) (ic_k1 k) (ic_k2 k) in
   ioutcome_eqb out (ic_outcome k)
   && list_eqb event_eqb (rev (hist (ws w))) (ic_trace k)
-  && list_eqb Nat.eqb (sort_nat (terminated w)) (ic_terminated k).
+  && list_eqb Nat.eqb (sort_nat (terminated w)) (ic_terminated k)
+  && Nat.eqb (nstarts w) (ic_nstarts k).
